@@ -2,6 +2,7 @@ import IbicusModel.Props.C07
 import IbicusModel.Props.Calendar
 import IbicusModel.Props.CalendarAgree
 import IbicusModel.Lemmas.GenLoops
+import IbicusModel.Lemmas.GenCalendarFns
 -- property theorems
 #print axioms Props.C07.postInit_ok
 #print axioms Props.C07.postInit_error_iff
@@ -18,6 +19,7 @@ import IbicusModel.Lemmas.GenLoops
 #print axioms Props.C07.applyLocationDC_all_some
 #print axioms Props.C07.applyYears_all_some
 #print axioms Props.C07.applyLocationMonths_all_some
+#print axioms Props.C07.composed_cover_unique
 #print axioms Props.C07.legacy_doy_counterexample
 #print axioms Props.C07.legacy_years_counterexample
 -- tier A: regenerated kernels = model
@@ -61,3 +63,31 @@ import IbicusModel.Lemmas.GenLoops
 #print axioms Lemmas.GenLoops.denoteGen_useYears
 #print axioms Lemmas.GenLoops.genCentres_useDoy
 #print axioms Lemmas.GenLoops.genCentres_useYears
+-- calendar tier A: the structure of day_of_year / month / year / day / season, create_array_of_consecutive_dates,
+-- get_(years_and_)yearly_means, get_mask_for_unique_subarray regenerated from the AST = the expected values …
+#print axioms Lemmas.GenCalendarFns.gen_day
+#print axioms Lemmas.GenCalendarFns.gen_month
+#print axioms Lemmas.GenCalendarFns.gen_year
+#print axioms Lemmas.GenCalendarFns.gen_dayOfYear
+#print axioms Lemmas.GenCalendarFns.gen_season
+#print axioms Lemmas.GenCalendarFns.gen_consec
+#print axioms Lemmas.GenCalendarFns.gen_yearlyMeans
+#print axioms Lemmas.GenCalendarFns.gen_yearsAndYearlyMeans
+#print axioms Lemmas.GenCalendarFns.gen_uniqueMask
+-- … and their denotation is `Model/Calendar.lean` / `Model/InferredDates.lean` / `Model/Isimip.lean` / `Model/Loops.lean`
+#print axioms Lemmas.GenCalendarFns.day_denote
+#print axioms Lemmas.GenCalendarFns.month_denote
+#print axioms Lemmas.GenCalendarFns.year_denote
+#print axioms Lemmas.GenCalendarFns.dayOfYear_denote
+#print axioms Lemmas.GenCalendarFns.pub_denote_empty
+#print axioms Lemmas.GenCalendarFns.month_denote_other
+#print axioms Lemmas.GenCalendarFns.dayOfYear_denote_other
+#print axioms Lemmas.GenCalendarFns.season_table
+#print axioms Lemmas.GenCalendarFns.seasonOf_none
+#print axioms Lemmas.GenCalendarFns.season_denote
+#print axioms Lemmas.GenCalendarFns.consec_denote
+#print axioms Lemmas.GenCalendarFns.year_consec
+#print axioms Lemmas.GenCalendarFns.dayOfYear_consec
+#print axioms Lemmas.GenCalendarFns.yearlyMeans_denote
+#print axioms Lemmas.GenCalendarFns.yearsAndYearlyMeans_denote
+#print axioms Lemmas.GenCalendarFns.uniqueMask_denote
